@@ -492,6 +492,103 @@ def _pair_task(args):
     return out
 
 
+# ---------------------------------------------------------------------------------------------------
+# reader / writer / reader: THREE workers and TWO preemptions, systematic
+# ---------------------------------------------------------------------------------------------------
+# Worker 1 (A) and worker 2 (B) each take one snapshot read, worker 3 (W) runs one or two writes.  Schedule (p, q): A runs
+# p yield points, W runs to its end, B runs q yield points, A runs to its end, B finishes.  A's read is in flight across the
+# whole write and across B's read, which starts only after the write has returned.  Backends that keep client-side state
+# (the _CachedStorage trial cache, the gRPC client cache, the journal's replayed state, the in-memory lists) are refreshed by
+# A and by B in either order around the write; whatever the code does with the two refreshes, every history is judged by
+# LinStorage as all others.  On the gRPC kinds A and B share one client and W is a second client.
+RWR_KINDS = ("inmemory", "journal_threads", "cached_rdb_threads", "grpc_stub_inmemory", "grpc_stub_journal")
+RWR_READ = [
+    [{"a": "get_all_trials", "s": 1, "states": ["ALL"], "dc": 1, "as_list": 0}],
+    [{"a": "get_all_trials", "s": 1, "states": ["RUNNING", "WAITING"], "dc": 0, "as_list": 0}],
+    [{"a": "get_trial", "t": 1}],
+    [{"a": "get_n_trials", "s": 1, "state": "COMPLETE"}],
+]
+RWR_WRITE = [
+    [{"a": "set_state", "t": 1, "state": "COMPLETE", "values": [3]}],
+    [{"a": "set_state", "t": 2, "state": "RUNNING", "values": sd.NONE_V}],
+    [{"a": "create_trial", "s": 1, "tm": {"has": 0}}, {"a": "set_state", "t": "own", "state": "COMPLETE", "values": [3]}],
+    [{"a": "set_trial_ua", "t": 1, "key": "k2", "v": 3}, {"a": "set_trial_sa", "t": 2, "key": "k1", "v": 3}],
+    [{"a": "set_iv", "t": 1, "step": "7", "v": 3}, {"a": "set_state", "t": 1, "state": "FAIL", "values": sd.NONE_V}],
+]
+
+
+RWR_GRID_CAP = 6000      # thorough tier: the full (p, q) grid of one triple up to this many schedules, evenly thinned above
+
+
+def rwr_triples():
+    return [(a, w, b) for w in range(len(RWR_WRITE)) for a in range(len(RWR_READ)) for b in range(len(RWR_READ))]
+
+
+def rwr_schedule(p, q):
+    """A = worker 1, B = worker 2, W = worker 3.  A worker that cannot run (it waits for a lock another one holds) is
+    passed over: the next phase's worker runs instead, so every (p, q) is a complete schedule"""
+    def factory(sched):
+        st = {"a": 0, "b": 0}
+
+        def choose(r, step):
+            by = {w.wid: w for w in r}
+            if st["a"] < p and 1 in by:
+                st["a"] += 1
+                return by[1]
+            if 3 in by:
+                return by[3]
+            if st["b"] < q and 2 in by:
+                st["b"] += 1
+                return by[2]
+            return by[1] if 1 in by else r[0]
+        return choose
+    return factory
+
+
+def rwr_execute(kind, ia, iw, ib, p, q):
+    t = execute(kind, [RWR_READ[ia], RWR_READ[ib], RWR_WRITE[iw]], rwr_schedule(p, q))
+    t["replay"] = {"family": "rwr", "kind": kind, "a": ia, "w": iw, "b": ib, "p": p, "q": q}
+    return t
+
+
+def _rwr_task(args):
+    kind, ia, iw, ib, nq, pstride, seed = args
+    # dry run: the numbers of yield points of A (it runs first) and of B (it runs last)
+    t = execute(kind, [RWR_READ[ia], RWR_READ[ib], RWR_WRITE[iw]], rwr_schedule(10 ** 9, 10 ** 9))
+    na, nb = t["lines"][0] + 2, t["lines"][1] + 2
+    rng = random.Random(f"rwr/{kind}/{ia}/{iw}/{ib}/{seed}")
+    out = []
+    qstride = 1
+    if nq is None and (na + 1) * (nb + 1) > RWR_GRID_CAP:      # gRPC calls: several hundred lines each; thin the grid evenly
+        pstride = qstride = int(((na + 1) * (nb + 1) / RWR_GRID_CAP) ** 0.5) + 1
+    for p in range(rng.randrange(pstride), na + 1, pstride):
+        qs = (range(rng.randrange(qstride), nb + 1, qstride) if nq is None
+              else sorted(rng.sample(range(0, nb + 1), min(nb + 1, nq))))
+        for q in qs:
+            out.append(rwr_execute(kind, ia, iw, ib, p, q))
+    return out
+
+
+def rwr_tasks(ctx):
+    """quick: per kind, both readers = get_all_trials x every write program, plus one triple picked by the seed; every p
+    (every 3rd on the gRPC kinds, whose calls are several hundred lines long) x 2-3 seeded q.
+    thorough: every triple; every (p, q) where both readers are the same call (grids above RWR_GRID_CAP schedules, i.e. the
+    gRPC kinds, thinned evenly with a seeded offset), every p x 8 seeded q for the mixed ones"""
+    triples = rwr_triples()
+    tasks = []
+    for k, kind in enumerate(RWR_KINDS):
+        if ctx.quick:
+            nq = 2 if kind == "cached_rdb_threads" else 3
+            pstride = 3 if kind.startswith("grpc") else 1
+            mixed = [t for t in triples if (t[0], t[2]) != (0, 0)]
+            chosen = [(0, w, 0) for w in range(len(RWR_WRITE))] + [mixed[(ctx.seed * 7 + k * 3) % len(mixed)]]
+            tasks += [(kind, a, w, b, nq, pstride, ctx.seed) for a, w, b in chosen]
+        else:
+            tasks += [(kind, a, w, b, None if a == b else 8, 3 if kind.startswith("grpc") and a != b else 1, ctx.seed)
+                      for a, w, b in triples]
+    return tasks
+
+
 def _random_task(args):
     kind, seed, n = args
     rng = random.Random(seed)
@@ -582,7 +679,9 @@ def run(ctx):
                 "ordered pair of calls of a 16-call alphabet with a single preemption at every line of the first call "
                 "(sampled lines in quick), (2) seeded random schedules of 2-3 workers x 1-2 calls; each history of call "
                 "starts/ends + the final read-back state is validated by TLC against LinStorage (search over linearization "
-                "points); SQLite connections interleaved per SQL statement are in the rdb part; (3) real OS processes (fork) free-running on "
+                "points); (2b) reader/writer/reader: two snapshot readers and one writer, reader A preempted at every line, the "
+                "writer runs to its end, reader B runs q lines, A finishes, B finishes (every (p, q) in thorough, every p x "
+                "seeded q in quick); SQLite connections interleaved per SQL statement are in the rdb part; (3) real OS processes (fork) free-running on "
                 "one journal file (one inherited JournalStorage object, or one object each) and on one SQLite file, ordered only "
                 "by end(a) < start(b) on the monotonic clock; distinct = distinct histories")
     r = tlc.require_model("InMemLock", "InMemLock_q", must_cover=["CStart", "CReadId", "CBumpId", "CReadLen", "CAppend", "SStart",
@@ -610,6 +709,11 @@ def run(ctx):
                   for kind in KINDS for i in range(4)]
         for res in ex.map(_random_task, rtasks):
             traces += res
+        # reader / writer / reader: three workers, two preemptions, systematic
+        n0 = len(traces)
+        for res in ex.map(_rwr_task, rwr_tasks(ctx)):
+            traces += res
+        ctx.notes["rwr_executions"] = len(traces) - n0
         # real OS processes, free running, ordered only by end(a) < start(b) on one monotonic clock
         ptasks = [(kind, ctx.seed * 31 + i, 6 if ctx.quick else 60) for kind in ("journal_fork", "journal_fresh", "sqlite")
                   for i in range(2 if ctx.quick else 4)]
@@ -644,6 +748,8 @@ def replay(ctx, data):
     if r["family"] == "pair":
         A, B = alphabet(1, r["kind"])[r["a"]], alphabet(2, r["kind"])[r["b"]]
         t = execute(r["kind"], [A, B], preempt_at(r["i"]), files=FILES_COPY if r.get("dense") else FILES)
+    elif r["family"] == "rwr":
+        t = rwr_execute(r["kind"], r["a"], r["w"], r["b"], r["p"], r["q"])
     elif r["family"] == "random":
         t = _random_task((r["kind"], r["seed"], r["index"] + 1))[r["index"]]
     elif r["family"] == "procs":
